@@ -198,7 +198,7 @@ RESULTS = {
               ("missed", "ArchiveHeader::dump goes through bincode serialisation of the configuration: outside the claim")),
     "C13-H": ("C13", "compression reader chains blocks without re-seeking the inner layer",
               "short-reading archive source (the decompressor stops fetching once a block's output is complete)",
-              None),
+              ("detected", "C13", ["h_cmp_read_step"], "through a source giving 1 byte per read, reading across the block edge at 4194304 returned bytes that differ from the original from the 6th byte on (template's built-in scenario: the witness extraction run of this harness runs out of memory)")),
     "C20-G": ("C20", "mla_archive_file_close clears the caller's file handle before validating the archive handle",
               "NULL archive handle with a live file handle",
               ("detected", "C20", ["h_c_null_args"], "mla_archive_file_close(NULL, &live) cleared the caller's live file handle although the call was refused")),
